@@ -24,6 +24,6 @@ func main() {
 	if s := os.Getenv("FAULTS_OPS"); s != "" {
 		ops = strings.Split(s, ",")
 	}
-	faults.Run(rep, args, faults.Select{Ops: ops, Monitors: []string{"posfile", "mount", "image", "chain", "checksum", "export", "locks", "restart", "journal", "backup", "effect", "replica-image", "replica-checksum", "replica-chain", "replica-restart"}})
+	faults.Run(rep, args, faults.Select{Ops: ops, Monitors: []string{"posfile", "mount", "image", "chain", "checksum", "export", "locks", "restart", "journal", "backup", "effect", "replica-image", "replica-mount", "replica-checksum", "replica-chain", "replica-restart"}})
 	rep.Finish()
 }
